@@ -269,3 +269,63 @@ def c01(case):
     except Exception as e:  # noqa
         out["pretty_exc"] = type(e).__name__
     return out
+
+
+# ---------------------------------------------------------------------------
+# C20: optional parse modes
+
+def _pairs(tracts, table):
+    out = []
+    for t in tracts:
+        key = (t.trs, t.desc)
+        out.append(table.setdefault(key, len(table) + 1))
+    return out
+
+
+def c20(case):
+    import pytrs
+    a = case["args"]
+    mode = a["mode"]
+    if mode == "same":
+        table = {}
+        r = {"a_exc": "none", "b_exc": "none", "a": [], "b": [], "has_warning": False}
+        try:
+            da = pytrs.PLSSDesc(a["text"], config=a.get("cfg_a"))
+            r["a"] = _pairs(da.tracts, table)
+            r["raw_a"] = [(t.trs, t.desc) for t in da.tracts][:10]
+        except Exception as e:  # noqa
+            r["a_exc"] = type(e).__name__
+        try:
+            db = pytrs.PLSSDesc(a["text"], config=a.get("cfg_b"))
+            r["b"] = _pairs(db.tracts, table)
+            r["raw_b"] = [(t.trs, t.desc) for t in db.tracts][:10]
+            w = a.get("warning")
+            if w:
+                r["has_warning"] = any(isinstance(f, str) and f.startswith(w) for f in db.w_flags) and all(
+                    any(isinstance(f, str) and f.startswith(w) for f in t.w_flags) for t in db.tracts)
+        except Exception as e:  # noqa
+            r["b_exc"] = type(e).__name__
+        return r
+    if mode == "fallback":
+        try:
+            d = pytrs.PLSSDesc(a["text"], config=a.get("cfg"))
+            return {"exc": "none", "n": len(d.tracts), "whole": bool(d.tracts) and d.tracts[0].desc == d.pp_desc,
+                    "raw": [(t.trs, t.desc) for t in d.tracts][:6]}
+        except Exception as e:  # noqa
+            return _exc(e)
+    if mode == "secwithin":
+        from . import render as R
+        try:
+            d = pytrs.PLSSDesc(a["text"], config="sec_within")
+            short = R.tr_short(a["tr"])
+            tracts, warned = [], []
+            for t in d.tracts:
+                tracts.append({"tr": a["tr"] if t.twprge == short else 0,
+                               "sec": int(t.sec) if t.sec.isdigit() else -1,
+                               "joined": t.desc == a["expected_desc"]})
+                flag = "sec_within<%s>" % t.trs
+                warned.append(flag in d.w_flags and flag in t.w_flags)
+            return {"exc": "none", "tracts": tracts, "warned": warned, "raw": [(t.trs, t.desc) for t in d.tracts][:6]}
+        except Exception as e:  # noqa
+            return _exc(e)
+    raise ValueError(mode)
